@@ -80,7 +80,9 @@ def cases(tier):
     for tname, (ttype, tval) in types.items():
         for b in (bindings() if not quick else bindings()[::2]):
             add(f"type:{tname}:{json.dumps(b, sort_keys=True)}", tool({"v": {"type": ttype, "inputBinding": b}}), {"v": tval})
-        for sep in ((",", " ", "") if not quick else (",",)):
+        # (itemSeparator '' is left out: cwltool drops the whole value for an empty separator, which the specification does not
+        #  support -- "join the array elements into a single string" -- so the reference is not an oracle there)
+        for sep in ((",", " ") if not quick else (",",)):
             if tname.startswith("array") and tname == "array":
                 add(f"type:{tname}:itemSeparator={sep!r}", tool({"v": {"type": ttype, "inputBinding": {"position": 1, "prefix": "-A", "itemSeparator": sep}}}),
                     {"v": tval})
